@@ -20,6 +20,30 @@ class Inst:
         self.sealed = refs.box_seal(self.rpk, self.esk, self.msg)
 
 
+class CornerInst(Inst):
+    """an honest encryption whose ciphertext drives the Poly1305 accumulator onto a carry / final-reduction corner
+    (the accumulator before the final reduction is ≡ 0..4 or p−1.. mod p): the message is solved from the key stream"""
+    def __init__(self, rng, which="secret"):
+        while True:
+            Inst.__init__(self, rng, 0, style=0)
+            key = self.key if which == "secret" else self.shared
+            ks = refs.xsalsa20_stream(key, self.nonce, 32 + 80)
+            r = int.from_bytes(ks[:16], "little") & refs.CLAMP
+            prefix = rbytes(rng, 16 * rng.randrange(0, 4))
+            T = rng.choice(refs.POLY_TARGETS)
+            blk = refs.poly_solve_last_block(r, prefix, T)
+            if blk is None:
+                continue
+            c = prefix + blk
+            self.msg = refs.xor(c, ks[32:32 + len(c)])
+            self.sb = refs.secretbox(self.key, self.nonce, self.msg)
+            self.bx = refs.secretbox(self.shared, self.nonce, self.msg)
+            self.sealed = refs.box_seal(self.rpk, self.esk, self.msg)
+            self.target = T
+            assert (self.sb if which == "secret" else self.bx)[16:] == c
+            return
+
+
 def buf(n):
     return bytes([SENT]) * n
 
